@@ -1262,7 +1262,7 @@ class Component(
                 # Emit signal that the template is about to be rendered
                 template_rendered.send(sender=template, template=template, context=context)
                 # Get the component's HTML
-                with _with_template_nested_flag(template, is_template_nested):
+                with _with_template_nested_flag(context, template, is_template_nested):
                     html_content = template.render(context)
 
             # Add necessary HTML attributes to work with JS and CSS variables
@@ -1714,23 +1714,19 @@ def _prepare_template(
             yield template
 
 
-# Set `Template._djc_is_component_nested` based on whether we're currently INSIDE
-# the `{% extends %}` tag.
+# Tell the monkeypatched `Template.render()` whether we're currently INSIDE the `{% extends %}` tag.
 # Part of fix for https://github.com/django-components/django-components/issues/508
 # See django_monkeypatch.py
 #
-# NOTE: The Template instance may be shared with other components, or with plain Django
+# NOTE: The Template instance may be shared with other components, with plain Django
 #       (e.g. `get_template_name()` returns the instance cached by Django's template loader),
-#       so the flag is set only for the duration of the render and then restored.
+#       and with renders running in other threads. So the flag is NOT stored on the Template,
+#       but on the Context (snapshot) that is used only for this one `Template.render()` call.
 @contextmanager
-def _with_template_nested_flag(template: Template, is_nested: bool) -> Generator[None, Any, None]:
-    has_prev = "_djc_is_component_nested" in template.__dict__
-    prev = template.__dict__.get("_djc_is_component_nested")
-    template._djc_is_component_nested = is_nested
+def _with_template_nested_flag(context: Context, template: Template, is_nested: bool) -> Generator[None, Any, None]:
+    prev = getattr(context, "_djc_nested_template", None)
+    context._djc_nested_template = template if is_nested else None
     try:
         yield
     finally:
-        if has_prev:
-            template._djc_is_component_nested = prev
-        else:
-            del template._djc_is_component_nested
+        context._djc_nested_template = prev
